@@ -154,7 +154,11 @@ def monitor(ctx, extended=False):
                     with warnings.catch_warnings():
                         warnings.simplefilter('ignore')
                         if ctx.rng.random() < 0.5:
-                            base_pl.name = 'p'
+                            # a requested file name together with a pipeline name of any kind (plain, with blanks / separators / dots, non-ASCII); the requested name
+                            # is sometimes one that cleans to nothing
+                            base_pl.name = ctx.rng.choice(['p', 'p', 'Main Line', 'a/b', '../escape', 'Leitung \u00fc 3', 'x.y'])
+                            if ctx.rng.random() < 0.15:
+                                n = ctx.rng.choice(['', '.xlsx', '...', '???', '/', '\u7ba1\u7dda', ' '])
                             path = S.store_to_excel(base_pl, fname=n, path=folder)
                         else:
                             # a pipeline name is written into a cell: Excel (openpyxl) cannot hold C0 control characters other than tab/newline/CR
@@ -190,9 +194,15 @@ def monitor(ctx, extended=False):
                 sl = E.make_slurry(pp, max_index=100)
                 sl._params = pp
             pl = G.random_pipeline(ctx.rng, n_pumps=ctx.rng.randint(0, 3), slurry=sl, **({'dia_choices': (sl.Dp,)} if sl is not None else {}))
-            pl.name = ctx.rng.choice(['Line A', 'x', 'Ünïcode ✓', 'a/b'])
-            pl.slurry.name = ctx.rng.choice(['sand', 'S 1'])
+            pl.name = ctx.rng.choice(['Line A', 'x', 'Ünïcode ✓', 'a/b', 'Line A ', ' x', 'T\t'])
+            pl.slurry.name = ctx.rng.choice(['sand', 'S 1', 'Medium sand ', ' fines'])
             secs = pl.pipesections
+            # pump names as users choose them: with the words the workbook format uses for its tabs, with blanks at the ends
+            for j_, sct in enumerate(list(secs)):
+                if not isinstance(sct, Pipe) and ctx.rng.random() < 0.5:
+                    q_ = G.clone_pump(sct, name=ctx.rng.choice(['Slurry pump', 'Pipeline booster', 'Booster 650 ', ' driver side pump', 'Main Pump', 'pump']))
+                    q_._example = getattr(sct, '_example', sct.name)
+                    secs[j_] = q_
             # section names as a user types them: leading / trailing blanks or tabs, inner double blanks, punctuation, non-ASCII
             for sct in secs:
                 if isinstance(sct, Pipe) and ctx.rng.random() < 0.4:
